@@ -400,7 +400,7 @@ func (c *Ctx) trieTraversals() {
 		pos := c.P.Pos(fn.Pos())
 		mq := nodeM(mMethod(pkgTopics, "snode", "matchQos"))
 		rec := nodeM(mCallee(fn))
-		ok := rng != nil && len(nodesMatching(g, mq)) >= 2 && len(nodesMatching(g, rec)) >= 1
+		ok := rng != nil && len(nodesMatching(g, mq))+len(collectLoops(fn)) >= 2 && len(nodesMatching(g, rec)) >= 1
 		c.R.Check(ok, ruleP4, "smatch:visits-all-children", pos, "ranges over the children; '#' children match, '+' and literal children recurse; the end of the topic matches the node", "smatch does not range over all children of a node with the three cases ('#', '+', literal)")
 	}
 }
@@ -469,16 +469,31 @@ func (c *Ctx) wildcardCoversParent() {
 		k, ok := lk.Index.(*ssa.Const)
 		return ok && k.Value != nil && k.Value.ExactString() == `"#"`
 	}
+	// the collection loops written out in smatch itself (matchQos inlined): entered at their header
+	loopNode := map[ssa.Instruction]ssa.Value{}
+	for _, l := range collectLoops(fn) {
+		if u, ok := rangeSubject(l).(*ssa.UnOp); ok {
+			if fa, ok := u.X.(*ssa.FieldAddr); ok {
+				loopNode[l.Header.Instrs[0]] = fa.X
+			}
+		}
+	}
 	collectHash := func(n paths.Node) bool {
-		call := paths.CallAt(n)
-		if call == nil || !ir.IsMethod(call.Common(), pkgTopics, "snode", "matchQos") {
+		var node ssa.Value
+		var at ssa.Instruction
+		if call := paths.CallAt(n); call != nil && ir.IsMethod(call.Common(), pkgTopics, "snode", "matchQos") {
+			node, at = call.Common().Args[0], call
+		} else if v, ok := loopNode[n.Instr]; ok && n.F == g.Root {
+			node, at = v, n.Instr
+		} else {
 			return false
 		}
-		if isHashChild(call.Common().Args[0]) {
+		if isHashChild(node) {
 			return true
 		}
 		// or: a child visited while ranging over the children, under `key == "#"`
-		if ex, ok := ir.SeeThrough(call.Common().Args[0]).(*ssa.Extract); ok {
+		call := at
+		if ex, ok := ir.SeeThrough(node).(*ssa.Extract); ok {
 			if nx, ok := ex.Tuple.(*ssa.Next); ok {
 				if rg, ok := nx.Iter.(*ssa.Range); ok && ir.PathOf(rg.X).Class() == "topics.snode.snodes" {
 					blk := call.Block()
@@ -515,7 +530,13 @@ func (c *Ctx) wildcardCoversParent() {
 		// range form: the terminal branch walks all children and collects the one keyed "#"; the loop is
 		// only left at its header, and every path through the terminal branch runs it
 		for _, n := range nodesMatching(g, collectHash) {
-			if n.F != g.Root || isHashChild(paths.CallAt(n).Common().Args[0]) {
+			if n.F != g.Root {
+				continue
+			}
+			if cl := paths.CallAt(n); cl != nil && isHashChild(cl.Common().Args[0]) {
+				continue
+			}
+			if v, ok := loopNode[n.Instr]; ok && isHashChild(v) {
 				continue
 			}
 			l := ir.InnermostLoop(ir.Loops(fn), n.Instr.Block())
